@@ -47,6 +47,7 @@ import (
 
 	"go.mongodb.org/mongo-driver/bson"
 	"go.mongodb.org/mongo-driver/bson/primitive"
+	"go.mongodb.org/mongo-driver/mongo"
 	"go.mongodb.org/mongo-driver/mongo/options"
 
 	"github.com/256dpi/lungo"
@@ -919,6 +920,40 @@ func oracleFailingStore(r *rng, n int, st *oracleStats) []oracleFailure {
 		os.Mkdir(dir, 0777)
 		fstore := lungo.NewFileStore(fsStorePath(dir), 0666)
 		ws := &flakyStore{inner: fstore}
+		if it%60 == 7 {
+			// retention scenario: a commit that only creates an index / a collection trims the
+			// change log (events older than the current second, tiny size limits) and then fails
+			// in Store: the visible catalog, including local.oplog, must stay as it was
+			st.Dist["retention-scenarios"]++
+			engine, err := lungo.CreateEngine(lungo.Options{Store: ws, MinOplogSize: 1, MaxOplogSize: 2, MinOplogAge: time.Nanosecond, MaxOplogAge: time.Nanosecond})
+			if err == nil {
+				client := lungo.NewClient(engine)
+				coll := client.Database("db").Collection("c")
+				for k := 0; k < 5; k++ {
+					coll.InsertOne(context.Background(), bson.D{{Key: "_id", Value: int32(k)}})
+				}
+				time.Sleep(1100 * time.Millisecond)
+				before := engine.Catalog()
+				beforeDump := fsDumpCatalog(before)
+				ws.mode = 1 + r.intn(2)
+				var opErr error
+				if r.chance(1, 2) {
+					_, opErr = coll.Indexes().CreateOne(context.Background(), mongo.IndexModel{Keys: bson.D{{Key: "v", Value: int32(1)}}})
+				} else {
+					opErr = client.Database("db").CreateCollection(context.Background(), "fresh")
+				}
+				detail := map[string]interface{}{"scenario": "index-or-collection creation commit trims the oplog, Store fails", "mode": ws.mode}
+				if opErr == nil {
+					fail("store error not reported by the commit", detail)
+				}
+				if fsDumpCatalog(engine.Catalog()) != beforeDump {
+					fail("contents of Engine.Catalog() changed after a failed commit", detail)
+				}
+				ws.mode = 0
+				engine.Close()
+			}
+			continue
+		}
 		engine, err := lungo.CreateEngine(lungo.Options{Store: ws})
 		if err != nil {
 			fail("infrastructure: CreateEngine failed", map[string]interface{}{"error": err.Error()})
